@@ -56,4 +56,22 @@ PROPS = {
              "compiles silently today and is reported here.",
         note="Does not decide equality of concurrent and sequential results nor races inside dependencies. Trusted: "
              "rustc trait solver, emmyfacts, the per-thread table (1 entry) in rules/c38.py."),
+    "C26": dict(
+        module="c26", func="run", level="proof", crates=["emmylua_ls"],
+        technique="table evaluation from MIR (match arms, vec! literals, const items) and entry-by-entry agreement",
+        text="Proves the legend clause: for every token kind the index sent on the wire selects, in the registered "
+             "legend, exactly the LSP type the kind stands for; every modifier bit i is legend entry i; the registered "
+             "legend is built from these tables. Exhaustive over the finite tables (24 kinds, 10 modifiers).",
+        note="Only the legend agreement is decided. Token ordering/overlap, symbol nesting, folding/selection ranges, "
+             "completion edits and edit overlap are data dependent and not decided. Trusted: rustc MIR, emmyfacts, "
+             "enum discriminants = declaration order for a fieldless enum without explicit discriminants."),
+    "C39": dict(
+        module="c39", func="run", level="other", crates=["emmylua_formatter", "luafmt"],
+        technique="who-may-call + interprocedural path provenance (backward dataflow through closures/helpers) + CFG must-precede",
+        text="Decides the atomic-replace discipline that makes the property hold at every crash point: no truncating "
+             "write API ever receives a path that may be a collected input file; input files are only replaced by "
+             "rename from a derived temporary that was completely written, checked and flushed on every path to the "
+             "rename. Found the in-place fs::write (fixed in 2c9b877).",
+        note="Static ordering/provenance argument; rename(2) atomicity and the meaning of the std::fs APIs are trusted. "
+             "Durability across power loss is not claimed. Path-deriving APIs (join/with_extension/..) are assumed to name a different file."),
 }
